@@ -1,2 +1,18 @@
-(* placeholder; theorems are added below *)
-From Hexital Require Import Base.Prelude.
+(* C07 - Work per appended candle is constant.
+   The recurrence specifications compute each reading from a state and the newest candle
+   only; the theorem bounds that state: the buffer never holds more than the stepper's
+   window, whatever the history.  Together with the bit-exact correspondence of the
+   specifications this shows that the readings *can* be, and by the executed-line counts
+   of the falsifier that they *are*, produced with work independent of the history length.
+   Partial: CPU time itself is outside any Gallina model. *)
+From Coq Require Import ZArith List String Bool.
+From Hexital Require Import Base.Prelude Base.Num Model.Candle Spec.Steppers Proofs.SpecGeneric.
+Local Open Scope Z_scope.
+
+Theorem C07_state_bounded_by_window :
+  forall (O : NumOps) (k : kind_s O) nd (s s' : state O) (c : inp O) v, 0 <= window_of O k ->
+  Z.of_nat (List.length (s_buf O s)) <= window_of O k ->
+  step O k nd s c = Ok (v, s') ->
+  Z.of_nat (List.length (s_buf O s')) <= window_of O k.
+Proof. exact state_bounded. Qed.
+Print Assumptions C07_state_bounded_by_window.
